@@ -402,7 +402,8 @@ def asciiBytes (s : String) : Option Bytes :=
 def enumKey (enc : Encoding) (s : String) : LoadM PyVal :=
   match enc with
   | .num e => if e.isFloat then do pure (.flt (← readFloat s)) else do pure (.int (← readInt s))
-  | .str _ => match asciiBytes s with | some b => pure (.bytes b) | none => throw Err.unsupported
+  -- `bytes(value, encoding=<the codec the field is decoded with>)` (after the `fix:` commit recorded in DESIGN.md §14)
+  | .str e => match encodeAsciiText e.codec s with | some b => pure (.bytes b) | none => throw Err.unsupported
   | .bin _ => throw Err.value
 
 /-- One `<Enumeration>` entry added to the dictionary. -/
